@@ -23,7 +23,8 @@ pub struct RawFault {
   /// 0 missing, 1 error, 2 checksum error, 3 redirect to pool entry,
   /// 4 redirect to itself, 5 external, 6 other final specifier,
   /// 7 undecodable bytes, 8 unparsable text, 9 redirect to an already
-  /// loaded specifier
+  /// loaded specifier, 10 module under the final specifier of an already
+  /// loaded one
   pub kind: u8,
   pub arg: u16,
 }
@@ -61,7 +62,7 @@ pub fn spec() -> PropSpec<Case> {
       (
         build_case_strategy(params(tier)),
         proptest::collection::vec(
-          (any::<u16>(), 0..10u8, any::<u16>())
+          (any::<u16>(), 0..11u8, any::<u16>())
             .prop_map(|(call, kind, arg)| RawFault { call, kind, arg }),
           0..=4,
         ),
@@ -201,6 +202,20 @@ pub fn make_fault(kind: u8, arg: u16, loaded: &[String], own: &str) -> (Fault, O
       let t = POOL[idx(arg, POOL.len())].to_string();
       (Fault::FinalSpec(t.clone()), Some(t))
     }
+    10 => {
+      // a module under the final specifier of something the build loads
+      // anyway (a package file, for one)
+      if loaded.is_empty() {
+        (Fault::Missing, None)
+      } else {
+        let t = loaded[idx(arg, loaded.len())].clone();
+        if t == own {
+          (Fault::RedirectSelf, None)
+        } else {
+          (Fault::FinalSpec(t.clone()), Some(t))
+        }
+      }
+    }
     7 => (Fault::Bytes(vec![0xff, 0xfe, 0x00, 0xd8, 0x41]), None),
     8 => (Fault::Bytes(b"export const = ;".to_vec()), None),
     _ => {
@@ -224,6 +239,9 @@ pub fn check(case: &Case, _tier: Tier) -> Outcome {
   let jsr = case.jsr.as_ref();
   let (g0, l0) = run_jsr(b, jsr, case.jsr_second_build, BTreeMap::new(), case.npm_mode);
   invariants(&g0, &mut o, "fault-free");
+  if b.opts.npm_resolver && case.npm_mode != 0 {
+    npm_failures(&g0, case.npm_mode, &mut o);
+  }
   let log0 = l0.log.borrow().clone();
   let loaded: Vec<String> = {
     let mut v: Vec<String> = Vec::new();
@@ -315,6 +333,66 @@ pub fn check(case: &Case, _tier: Tier) -> Outcome {
   }
   o.label(format!("faults-{nfaults}"));
   o
+}
+
+/// An injected npm resolution failure becomes an error entry with a
+/// referrer: the requirement of a failing package wherever it is imported; a
+/// dependency-graph failure for specifiers that only dynamic imports reach
+/// (for static ones it is the graph-level `npm_dep_graph_result`).
+fn npm_failures(g: &ModuleGraph, npm_mode: u8, o: &mut Outcome) {
+  let mut edges: BTreeMap<ModuleSpecifier, (usize, usize)> = BTreeMap::new();
+  for m in g.modules() {
+    for d in m.dependencies().values() {
+      for r in [&d.maybe_code, &d.maybe_type] {
+        if let Some(t) = r.maybe_specifier() {
+          if t.scheme() == "npm" {
+            let e = edges.entry(t.clone()).or_default();
+            if d.is_dynamic {
+              e.1 += 1;
+            } else {
+              e.0 += 1;
+            }
+          }
+        }
+      }
+    }
+  }
+  let configured: BTreeSet<&ModuleSpecifier> = g
+    .imports
+    .values()
+    .flat_map(|gi| gi.dependencies.values())
+    .filter_map(|d| d.maybe_type.maybe_specifier())
+    .chain(g.roots.iter())
+    .collect();
+  for (s, (stat, dynamic)) in edges {
+    if configured.contains(&s) {
+      continue;
+    }
+    let name_fails = s.as_str().starts_with("npm:pkg@") || s.as_str() == "npm:pkg";
+    let expect_error = match npm_mode {
+      1 => name_fails,
+      2 => stat == 0 && dynamic > 0,
+      _ => false,
+    };
+    if !expect_error {
+      continue;
+    }
+    match g.try_get(&s) {
+      Err(e) => {
+        o.label(if npm_mode == 1 { "npm-requirement-failure-reached" } else { "npm-dependency-graph-failure-behind-dynamic-import" });
+        if e.maybe_referrer().is_none() {
+          o.violate("C03/npm-failure-entry-without-referrer", format!("{s}: {e}"));
+        }
+      }
+      // not followed by this build (dynamic imports skipped, a type edge in
+      // a code-only graph)
+      Ok(None) => {}
+      Ok(Some(m)) => o.violate(
+        format!("C03/npm-failure-without-error-entry/mode-{npm_mode}"),
+        format!("{s}: {stat} static and {dynamic} dynamic imports, entry {}", m.specifier()),
+      ),
+    }
+  }
 }
 
 fn invariants(g: &ModuleGraph, o: &mut Outcome, which: &str) {
@@ -794,9 +872,9 @@ pub fn extra(tier: Tier, seed: u64) -> ExtraReport {
     };
     for call in &log0 {
       let attempt = log0[..call.seq].iter().filter(|c| c.spec == call.spec).count() as u32;
-      for kind in 0..10u8 {
+      for kind in 0..11u8 {
         for arg in [0u16, 30000, 60000] {
-          if !matches!(kind, 3 | 6 | 9) && arg != 0 {
+          if !matches!(kind, 3 | 6 | 9 | 10) && arg != 0 {
             continue;
           }
           let (fault, target) = make_fault(kind, arg, &loaded, &call.spec);
